@@ -142,7 +142,7 @@ quantised weight (hook) of every RefFeature of the boundary; every stored n-gram
 exactly 2*W_own - len + 1 weights. Single-class corpora / training errors are counted and \
 skipped (C11). Non-trivial = an evaluation boundary with a non-zero feature weight.",
         n,
-        || train::train_case(TrainGenCfg { max_sentences: 6, max_len: 8, tame: false, tag_dict: false }),
+        || train::train_case(TrainGenCfg { max_sentences: 6, max_len: 8, tame: false, tag_dict: false, tag_focus: false }),
         test_case,
     );
     rep.assume("liblinear is trusted to be a function of its inputs within one call; its coefficients are read through the verif-hooks record, not re-derived");
